@@ -5,7 +5,7 @@ import numpy as np
 from harness import tlc, gen
 from harness.common import enc_seq, enc, workdir, write_ndjson, Report
 
-TOLS = [0.0, 0.5, 1.5]
+TOLS = [0.0, 1.0, 1.5, 2.0]     # 1 and 2 are hit exactly by turning points of the integer alphabets
 MC_CFG = """SPECIFICATION Spec
 CONSTANT MaxLen = %d
 CONSTANT NL = %d
@@ -72,7 +72,7 @@ def build_traces(path, tier, seed):
     for tid in range(1, nrec + nshort + 1):
         n = gen.length(rng, 1, nmax) if tid <= nrec else int(rng.integers(1, 40))
         x = rand_series(rng, n)
-        tol = float(rng.choice([0.3, 1.0, 2.5, rng.uniform(0.01, 3)]))
+        tol = float(rng.choice([0.3, 1.0, 2.0, 2.5, rng.uniform(0.01, 3)]))
         arg = x if tid % 4 else x.tolist()
         rec = {"tid": tid, "x": enc_seq(x), "tol": enc(tol),
                "zcf": [int(i) for i in pc.get_zero_crossings_array_indices(arg, keep_adj_zeros=False)],
